@@ -262,8 +262,8 @@ func NewParametersFromLiteral(residualParameters ckks.Parameters, btpLit Paramet
 	// Retrieve the number of primes #Pi of the bootstrapping circuit
 	// and adds them to the list of bit-size
 	LogP := btpLit.GetLogP(C2SParams.LevelQ + 1)
-	if len(LogP) == 0 && EphemeralSecretWeight > 0 {
-		return Parameters{}, fmt.Errorf("field LogP cannot be empty when EphemeralSecretWeight > 0: the encapsulation keys need an auxiliary prime")
+	if len(LogP) == 0 {
+		return Parameters{}, fmt.Errorf("field LogP cannot be empty: the bootstrapping circuit (ModUp, hoisted linear transformations, encapsulation keys) needs an auxiliary prime")
 	}
 	for _, logpi := range LogP {
 		primesBitLenNew[logpi]++
